@@ -7,10 +7,22 @@
 //   3 returned, but a by-reference operand was modified
 //   4 returned, but the owned and the borrowed form disagree
 //   5 the by-reference form panicked but the consuming (owned) form of the same operation returned a value
+//   6 returned, but the write landed in (or also changed) the storage of another element
+// guard.<entry>@zero ...: the same calls with the PAYLOAD (value / vector written, second operand, right-hand side) all zeros.
+// guard.h_<entry> ...: the receiver is produced by a HISTORY (resize / transpose_in_place / delete_row) before the checked call.
+// guard.own2_<type> n..: owned vs borrowed forms on operands whose products and sums are INEXACT in f64.
 #![allow(dead_code)]
 use std::panic::{catch_unwind, AssertUnwindSafe};
 use ohsl::{Banded, Matrix, Mesh1D, Mesh2D, Polynomial, Sparse, Tridiagonal, Vector};
 use crate::io::{Args, Out};
+
+// payload mode: generic data, or all zeros (a fast path keyed on a zero value / zero vector must not skip a guard)
+thread_local! { static ZERO: std::cell::Cell<bool> = std::cell::Cell::new(false); }
+fn zero_mode() -> bool { ZERO.with(|z| z.get()) }
+fn pv(n: usize) -> Vector<f64> { if zero_mode() { Vector::<f64>::new(n, 0.0) } else { vecn(n) } }
+fn px(x: f64) -> f64 { if zero_mode() { 0.0 } else { x } }
+fn pm(r: usize, c: usize) -> Matrix<f64> { if zero_mode() { Matrix::<f64>::new(r, c, 0.0) } else { matn(r, c) } }
+fn pb(n: usize, m1: usize, m2: usize) -> Banded<f64> { if zero_mode() { Banded::<f64>::new(n, m1, m2, 0.0) } else { bandn(n, m1, m2) } }
 
 fn u(x: i64) -> usize { if x < 0 { panic!("harness: negative size"); } x as usize }
 fn vecn(n: usize) -> Vector<f64> { Vector::create((0..n).map(|i| 1.0 + i as f64 * 0.5).collect()) }
@@ -105,7 +117,7 @@ fn entry(key: &str, t: &[i64]) -> i128 {
     match key {
         // ---------------------------------------------------------------- Vector
         "vec_add_ref" | "vec_sub_ref" => {
-            let (a, b) = (vecn(u(t[0])), vecn(u(t[1]))); let (sa, sb) = (bits_v(&a), bits_v(&b));
+            let (a, b) = (vecn(u(t[0])), pv(u(t[1]))); let (sa, sb) = (bits_v(&a), bits_v(&b));
             let add = key == "vec_add_ref";
             let c = run(|| if add { &a + &b } else { &a - &b }, || bits_v(&a) == sa && bits_v(&b) == sb,
                 |r| { let o = if add { a.clone() + b.clone() } else { a.clone() - b.clone() }; let o2 = if add { a.clone() + &b } else { a.clone() - &b };
@@ -114,14 +126,14 @@ fn entry(key: &str, t: &[i64]) -> i128 {
             also_owned(c, || if add { a.clone() + &b } else { a.clone() - &b })
         }
         "vec_add_assign" | "vec_sub_assign" => {
-            let (mut a, b) = (vecn(u(t[0])), vecn(u(t[1]))); let sa = bits_v(&a);
+            let (mut a, b) = (vecn(u(t[0])), pv(u(t[1]))); let sa = bits_v(&a);
             let add = key == "vec_add_assign";
             let r = catch_unwind(AssertUnwindSafe(|| if add { a += b.clone() } else { a -= b.clone() }));
             if r.is_err() { if bits_v(&a) == sa { 1 } else { 2 } } else { 0 }
         }
-        "vec_dot" => { let (a, b) = (vecn(u(t[0])), vecn(u(t[1]))); let (sa, sb) = (bits_v(&a), bits_v(&b));
+        "vec_dot" => { let (a, b) = (vecn(u(t[0])), pv(u(t[1]))); let (sa, sb) = (bits_v(&a), bits_v(&b));
             run(|| a.dot(&b), || bits_v(&a) == sa && bits_v(&b) == sb, yes, false) }
-        "vec_dot_f64" => { let (a, b) = (vecn(u(t[0])), vecn(u(t[1]))); let (sa, sb) = (bits_v(&a), bits_v(&b));
+        "vec_dot_f64" => { let (a, b) = (vecn(u(t[0])), pv(u(t[1]))); let (sa, sb) = (bits_v(&a), bits_v(&b));
             run(|| a.dot_f64(&b), || bits_v(&a) == sa && bits_v(&b) == sb, yes, false) }
         "vec_sum_slice" => { let a = vecn(u(t[0])); let sa = bits_v(&a);
             run(|| a.sum_slice(u(t[1]), u(t[2])), || bits_v(&a) == sa, yes, false) }
@@ -133,22 +145,22 @@ fn entry(key: &str, t: &[i64]) -> i128 {
         "mat_get_row" => { let m = matn(u(t[0]), u(t[1])); let s = bits_m(&m); run(|| m.get_row(u(t[2])), || bits_m(&m) == s, yes, false) }
         "mat_get_col" => { let m = matn(u(t[0]), u(t[1])); let s = bits_m(&m); run(|| m.get_col(u(t[2])), || bits_m(&m) == s, yes, false) }
         "mat_set_row" => { let mut m = matn(u(t[0]), u(t[1])); let s = bits_m(&m);
-            let r = catch_unwind(AssertUnwindSafe(|| m.set_row(u(t[2]), vecn(u(t[3]))))); if r.is_err() { if bits_m(&m) == s { 1 } else { 2 } } else { 0 } }
+            let r = catch_unwind(AssertUnwindSafe(|| m.set_row(u(t[2]), pv(u(t[3]))))); if r.is_err() { if bits_m(&m) == s { 1 } else { 2 } } else { 0 } }
         "mat_set_col" => { let mut m = matn(u(t[0]), u(t[1])); let s = bits_m(&m);
-            let r = catch_unwind(AssertUnwindSafe(|| m.set_col(u(t[2]), vecn(u(t[3]))))); if r.is_err() { if bits_m(&m) == s { 1 } else { 2 } } else { 0 } }
+            let r = catch_unwind(AssertUnwindSafe(|| m.set_col(u(t[2]), pv(u(t[3]))))); if r.is_err() { if bits_m(&m) == s { 1 } else { 2 } } else { 0 } }
         "mat_delete_row" => { let mut m = matn(u(t[0]), u(t[1])); let s = bits_m(&m);
             let r = catch_unwind(AssertUnwindSafe(|| m.delete_row(u(t[2])))); if r.is_err() { if bits_m(&m) == s { 1 } else { 2 } } else { 0 } }
-        "mat_multiply" => { let m = matn(u(t[0]), u(t[1])); let v = vecn(u(t[2])); let (s, sv) = (bits_m(&m), bits_v(&v));
+        "mat_multiply" => { let m = matn(u(t[0]), u(t[1])); let v = pv(u(t[2])); let (s, sv) = (bits_m(&m), bits_v(&v));
             let c = run(|| m.multiply(&v), || bits_m(&m) == s && bits_v(&v) == sv,
                 |r| { let o = &m * &v; let o2 = m.clone() * v.clone(); bits_v(r) == bits_v(&o) && bits_v(r) == bits_v(&o2) }, false);
             let c = also_owned(c, || &m * &v); also_owned(c, || m.clone() * v.clone()) }
         "mat_swap_rows" => { let mut m = matn(u(t[0]), u(t[1])); let s = bits_m(&m);
             let r = catch_unwind(AssertUnwindSafe(|| m.swap_rows(u(t[2]), u(t[3])))); if r.is_err() { if bits_m(&m) == s { 1 } else { 2 } } else { 0 } }
         "mat_fill_row" => { let mut m = matn(u(t[0]), u(t[1])); let s = bits_m(&m);
-            let r = catch_unwind(AssertUnwindSafe(|| m.fill_row(u(t[2]), 7.0))); if r.is_err() { if bits_m(&m) == s { 1 } else { 2 } } else { 0 } }
+            let r = catch_unwind(AssertUnwindSafe(|| m.fill_row(u(t[2]), px(7.0)))); if r.is_err() { if bits_m(&m) == s { 1 } else { 2 } } else { 0 } }
         "mat_fill_col" => { let mut m = matn(u(t[0]), u(t[1])); let s = bits_m(&m);
-            let r = catch_unwind(AssertUnwindSafe(|| m.fill_col(u(t[2]), 7.0))); if r.is_err() { if bits_m(&m) == s { 1 } else { 2 } } else { 0 } }
-        "mat_solve_basic" | "mat_solve_lu" => { let mut m = matn(u(t[0]), u(t[1])); let b = vecn(u(t[2])); let (s, sb) = (bits_m(&m), bits_v(&b));
+            let r = catch_unwind(AssertUnwindSafe(|| m.fill_col(u(t[2]), px(7.0)))); if r.is_err() { if bits_m(&m) == s { 1 } else { 2 } } else { 0 } }
+        "mat_solve_basic" | "mat_solve_lu" => { let mut m = matn(u(t[0]), u(t[1])); let b = pv(u(t[2])); let (s, sb) = (bits_m(&m), bits_v(&b));
             let basic = key == "mat_solve_basic";
             let r = catch_unwind(AssertUnwindSafe(|| if basic { m.solve_basic(&b) } else { m.solve_lu(&b) }));
             if r.is_err() { if bits_m(&m) == s && bits_v(&b) == sb { 1 } else { 2 } } else if bits_v(&b) != sb { 3 } else { 0 } }
@@ -156,73 +168,73 @@ fn entry(key: &str, t: &[i64]) -> i128 {
             let r = catch_unwind(AssertUnwindSafe(|| m.lu_decomp_in_place())); if r.is_err() { if bits_m(&m) == s { 1 } else { 2 } } else { 0 } }
         "mat_inverse" => { let m = matn(u(t[0]), u(t[1])); let s = bits_m(&m); run(|| m.inverse(), || bits_m(&m) == s, yes, false) }
         "mat_determinant" => { let m = matn(u(t[0]), u(t[1])); let s = bits_m(&m); run(|| m.determinant(), || bits_m(&m) == s, yes, false) }
-        "mat_add_ref" | "mat_sub_ref" => { let (a, b) = (matn(u(t[0]), u(t[1])), matn(u(t[2]), u(t[3]))); let (sa, sb) = (bits_m(&a), bits_m(&b));
+        "mat_add_ref" | "mat_sub_ref" => { let (a, b) = (matn(u(t[0]), u(t[1])), pm(u(t[2]), u(t[3]))); let (sa, sb) = (bits_m(&a), bits_m(&b));
             let add = key == "mat_add_ref";
             let c = run(|| if add { &a + &b } else { &a - &b }, || bits_m(&a) == sa && bits_m(&b) == sb,
                 |r| { let o = if add { a.clone() + b.clone() } else { a.clone() - b.clone() }; bits_m(r) == bits_m(&o) }, false);
             also_owned(c, || if add { a.clone() + b.clone() } else { a.clone() - b.clone() }) }
-        "mat_add_assign_ref" | "mat_sub_assign_ref" => { let (mut a, b) = (matn(u(t[0]), u(t[1])), matn(u(t[2]), u(t[3]))); let (sa, sb) = (bits_m(&a), bits_m(&b));
+        "mat_add_assign_ref" | "mat_sub_assign_ref" => { let (mut a, b) = (matn(u(t[0]), u(t[1])), pm(u(t[2]), u(t[3]))); let (sa, sb) = (bits_m(&a), bits_m(&b));
             let add = key == "mat_add_assign_ref";
             let r = catch_unwind(AssertUnwindSafe(|| if add { a += &b } else { a -= &b }));
             if r.is_err() { if bits_m(&a) == sa && bits_m(&b) == sb { also_owned(1, || { let mut o = matn(u(t[0]), u(t[1])); if add { o += b.clone() } else { o -= b.clone() }; o }) } else { 2 } } else if bits_m(&b) != sb { 3 } else {
                 let mut o = matn(u(t[0]), u(t[1])); if add { o += b.clone() } else { o -= b.clone() }; if bits_m(&o) == bits_m(&a) { 0 } else { 4 } } }
-        "mat_mul_ref" => { let (a, b) = (matn(u(t[0]), u(t[1])), matn(u(t[2]), u(t[3]))); let (sa, sb) = (bits_m(&a), bits_m(&b));
+        "mat_mul_ref" => { let (a, b) = (matn(u(t[0]), u(t[1])), pm(u(t[2]), u(t[3]))); let (sa, sb) = (bits_m(&a), bits_m(&b));
             let c = run(|| &a * &b, || bits_m(&a) == sa && bits_m(&b) == sb, |r| { let o = a.clone() * b.clone(); bits_m(r) == bits_m(&o) }, false);
             also_owned(c, || a.clone() * b.clone()) }
         // ---------------------------------------------------------------- Banded
         "band_fill_band" => { let mut b = Banded::<f64>::new(u(t[0]), u(t[1]), u(t[2]), 0.5); let s = bits_b(&b);
-            let r = catch_unwind(AssertUnwindSafe(|| b.fill_band(t[3] as isize, 7.0))); if r.is_err() { if bits_b(&b) == s { 1 } else { 2 } } else { 0 } }
-        "band_solve" => { let b = bandn(u(t[0]), u(t[1]), u(t[2])); let v = vecn(u(t[3])); let (s, sv) = (bits_b(&b), bits_v(&v));
+            let r = catch_unwind(AssertUnwindSafe(|| b.fill_band(t[3] as isize, px(7.0)))); if r.is_err() { if bits_b(&b) == s { 1 } else { 2 } } else { 0 } }
+        "band_solve" => { let b = bandn(u(t[0]), u(t[1]), u(t[2])); let v = pv(u(t[3])); let (s, sv) = (bits_b(&b), bits_v(&v));
             run(|| b.solve(&v), || bits_b(&b) == s && bits_v(&v) == sv, yes, false) }
         "band_index" => { let b = bandn(u(t[0]), u(t[1]), u(t[2])); let s = bits_b(&b); run(|| b[(u(t[3]), u(t[4]))], || bits_b(&b) == s, yes, false) }
         "band_index_mut" => { let mut b = bandn(u(t[0]), u(t[1]), u(t[2])); let s = bits_b(&b);
-            let r = catch_unwind(AssertUnwindSafe(|| { b[(u(t[3]), u(t[4]))] = 7.0; })); if r.is_err() { if bits_b(&b) == s { 1 } else { 2 } } else { 0 } }
-        "band_add_ref" | "band_sub_ref" => { let (a, b) = (bandn(u(t[0]), u(t[1]), u(t[2])), bandn(u(t[3]), u(t[4]), u(t[5]))); let (sa, sb) = (bits_b(&a), bits_b(&b));
+            let r = catch_unwind(AssertUnwindSafe(|| { b[(u(t[3]), u(t[4]))] = px(7.0); })); if r.is_err() { if bits_b(&b) == s { 1 } else { 2 } } else { 0 } }
+        "band_add_ref" | "band_sub_ref" => { let (a, b) = (bandn(u(t[0]), u(t[1]), u(t[2])), pb(u(t[3]), u(t[4]), u(t[5]))); let (sa, sb) = (bits_b(&a), bits_b(&b));
             let add = key == "band_add_ref";
             let c = run(|| if add { &a + &b } else { &a - &b }, || bits_b(&a) == sa && bits_b(&b) == sb,
                 |r| { let o = if add { a.clone() + b.clone() } else { a.clone() - b.clone() }; bits_b(r) == bits_b(&o) }, false);
             also_owned(c, || if add { a.clone() + b.clone() } else { a.clone() - b.clone() }) }
-        "band_add_assign_ref" | "band_sub_assign_ref" => { let (mut a, b) = (bandn(u(t[0]), u(t[1]), u(t[2])), bandn(u(t[3]), u(t[4]), u(t[5]))); let (sa, sb) = (bits_b(&a), bits_b(&b));
+        "band_add_assign_ref" | "band_sub_assign_ref" => { let (mut a, b) = (bandn(u(t[0]), u(t[1]), u(t[2])), pb(u(t[3]), u(t[4]), u(t[5]))); let (sa, sb) = (bits_b(&a), bits_b(&b));
             let add = key == "band_add_assign_ref";
             let r = catch_unwind(AssertUnwindSafe(|| if add { a += &b } else { a -= &b }));
             if r.is_err() { if bits_b(&a) == sa && bits_b(&b) == sb { also_owned(1, || { let mut o = bandn(u(t[0]), u(t[1]), u(t[2])); if add { o += b.clone() } else { o -= b.clone() }; o }) } else { 2 } } else if bits_b(&b) != sb { 3 } else {
                 let mut o = bandn(u(t[0]), u(t[1]), u(t[2])); if add { o += b.clone() } else { o -= b.clone() }; if bits_b(&o) == bits_b(&a) { 0 } else { 4 } } }
-        "band_mul_vec" => { let b = bandn(u(t[0]), u(t[1]), u(t[2])); let v = vecn(u(t[3])); let (s, sv) = (bits_b(&b), bits_v(&v));
+        "band_mul_vec" => { let b = bandn(u(t[0]), u(t[1]), u(t[2])); let v = pv(u(t[3])); let (s, sv) = (bits_b(&b), bits_v(&v));
             let c = run(|| &b * &v, || bits_b(&b) == s && bits_v(&v) == sv, |r| { let o = b.clone() * v.clone(); bits_v(r) == bits_v(&o) }, false);
             also_owned(c, || b.clone() * v.clone()) }
         // ---------------------------------------------------------------- Tridiagonal
-        "tri_with_vectors" => run(|| Tridiagonal::with_vectors(vecn(u(t[0])), vecn(u(t[1])), vecn(u(t[2]))), || true, yes, false),
-        "tri_with_vecs" => run(|| Tridiagonal::with_vecs(vecn(u(t[0])).vec, vecn(u(t[1])).vec, vecn(u(t[2])).vec), || true, yes, false),
+        "tri_with_vectors" => run(|| Tridiagonal::with_vectors(pv(u(t[0])), pv(u(t[1])), pv(u(t[2]))), || true, yes, false),
+        "tri_with_vecs" => run(|| Tridiagonal::with_vecs(pv(u(t[0])).vec, pv(u(t[1])).vec, pv(u(t[2])).vec), || true, yes, false),
         "tri_convert" => { let a = trin(u(t[0])); let s = bits_t(&a); run(|| a.convert(), || bits_t(&a) == s, yes, false) }
-        "tri_solve" => { let a = trin(u(t[0])); let v = vecn(u(t[1])); let (s, sv) = (bits_t(&a), bits_v(&v));
+        "tri_solve" => { let a = trin(u(t[0])); let v = pv(u(t[1])); let (s, sv) = (bits_t(&a), bits_v(&v));
             run(|| a.solve(&v), || bits_t(&a) == s && bits_v(&v) == sv, yes, false) }
         "tri_index" => { let a = trin(u(t[0])); let s = bits_t(&a); run(|| a[(u(t[1]), u(t[2]))], || bits_t(&a) == s, yes, false) }
         "tri_index_mut" => { let mut a = trin(u(t[0])); let s = bits_t(&a);
-            let r = catch_unwind(AssertUnwindSafe(|| { a[(u(t[1]), u(t[2]))] = 7.0; })); if r.is_err() { if bits_t(&a) == s { 1 } else { 2 } } else { 0 } }
+            let r = catch_unwind(AssertUnwindSafe(|| { a[(u(t[1]), u(t[2]))] = px(7.0); })); if r.is_err() { if bits_t(&a) == s { 1 } else { 2 } } else { 0 } }
         "tri_add" => { let (a, b) = (trin(u(t[0])), trin(u(t[1]))); run(|| a.clone() + b.clone(), || true, yes, false) }
         "tri_sub" => { let (a, b) = (trin(u(t[0])), trin(u(t[1]))); run(|| a.clone() - b.clone(), || true, yes, false) }
-        "tri_mul_vec" => { let a = trin(u(t[0])); let v = vecn(u(t[1])); let (s, sv) = (bits_t(&a), bits_v(&v));
+        "tri_mul_vec" => { let a = trin(u(t[0])); let v = pv(u(t[1])); let (s, sv) = (bits_t(&a), bits_v(&v));
             let c = run(|| &a * &v, || bits_t(&a) == s && bits_v(&v) == sv, |r| { let o = a.clone() * v.clone(); bits_v(r) == bits_v(&o) }, false);
             also_owned(c, || a.clone() * v.clone()) }
         // ---------------------------------------------------------------- Sparse
         "sp_from_triplets" => { let (r, c) = (u(t[0]), u(t[1]));
             run(|| { let mut tr: Vec<(usize, usize, f64)> = Vec::new();
                      if r > 0 && c > 0 { tr.push((r - 1, c - 1, 2.0)); }
-                     if !(r > 0 && c > 0 && u(t[2]) == r - 1 && u(t[3]) == c - 1) { tr.push((u(t[2]), u(t[3]), 3.0)); }
+                     if !(r > 0 && c > 0 && u(t[2]) == r - 1 && u(t[3]) == c - 1) { tr.push((u(t[2]), u(t[3]), px(3.0))); }
                      Sparse::from_triplets(r, c, &mut tr) }, || true, yes, false) }
         "sp_get" => { let s = sparsen(u(t[0]), u(t[1])); let b = bits_s(&s); run(|| s.get(u(t[2]), u(t[3])), || bits_s(&s) == b, yes, false) }
         "sp_insert" => { let mut s = sparsen(u(t[0]), u(t[1])); let b = bits_s(&s);
-            let r = catch_unwind(AssertUnwindSafe(|| s.insert(u(t[2]), u(t[3]), 9.0))); if r.is_err() { if bits_s(&s) == b { 1 } else { 2 } } else { 0 } }
-        "sp_multiply" => { let s = sparsen(u(t[0]), u(t[1])); let x = vecn(u(t[2])); let (b, sx) = (bits_s(&s), bits_v(&x));
+            let r = catch_unwind(AssertUnwindSafe(|| s.insert(u(t[2]), u(t[3]), px(9.0)))); if r.is_err() { if bits_s(&s) == b { 1 } else { 2 } } else { 0 } }
+        "sp_multiply" => { let s = sparsen(u(t[0]), u(t[1])); let x = pv(u(t[2])); let (b, sx) = (bits_s(&s), bits_v(&x));
             run(|| s.multiply(&x), || bits_s(&s) == b && bits_v(&x) == sx, yes, false) }
-        "sp_transpose_multiply" => { let s = sparsen(u(t[0]), u(t[1])); let x = vecn(u(t[2])); let (b, sx) = (bits_s(&s), bits_v(&x));
+        "sp_transpose_multiply" => { let s = sparsen(u(t[0]), u(t[1])); let x = pv(u(t[2])); let (b, sx) = (bits_s(&s), bits_v(&x));
             run(|| s.transpose_multiply(&x), || bits_s(&s) == b && bits_v(&x) == sx, yes, false) }
         "sp_solve_bicg" | "sp_solve_bicgstab" | "sp_solve_cg" | "sp_solve_qmr" => {
             let (r, c) = (u(t[0]), u(t[1]));
             let mut tr: Vec<(usize, usize, f64)> = Vec::new();
             for i in 0..r.min(c) { tr.push((i, i, 4.0 + i as f64)); }
             let s = Sparse::from_triplets(r, c, &mut tr);
-            let b = vecn(u(t[2])); let mut x = Vector::<f64>::new(u(t[3]), 0.0);
+            let b = pv(u(t[2])); let mut x = Vector::<f64>::new(u(t[3]), 0.0);
             let (bs, sb, sx) = (bits_s(&s), bits_v(&b), bits_v(&x));
             let res = catch_unwind(AssertUnwindSafe(|| match key {
                 "sp_solve_bicg" => s.solve_bicg(&b, &mut x, 50, 1e-10, u(t[4])),
@@ -233,36 +245,74 @@ fn entry(key: &str, t: &[i64]) -> i128 {
             else if bits_s(&s) != bs || bits_v(&b) != sb { 3 } else { 0 } }
         // ---------------------------------------------------------------- meshes
         "mesh1_set_nodes_vars" => { let mut m = mesh1(u(t[0]), u(t[1])); let s = bits_m1(&m);
-            let r = catch_unwind(AssertUnwindSafe(|| m.set_nodes_vars(u(t[2]), vecn(u(t[3]))))); if r.is_err() { if bits_m1(&m) == s { 1 } else { 2 } } else { 0 } }
+            let r = catch_unwind(AssertUnwindSafe(|| m.set_nodes_vars(u(t[2]), pv(u(t[3]))))); if r.is_err() { if bits_m1(&m) == s { 1 } else { 2 } } else { 0 } }
         "mesh1_get_nodes_vars" => { let m = mesh1(u(t[0]), u(t[1])); let s = bits_m1(&m); run(|| m.get_nodes_vars(u(t[2])), || bits_m1(&m) == s, yes, false) }
         "mesh2_set_nodes_vars" => { let mut m = mesh2(u(t[0]), u(t[1]), u(t[2])); let s = bits_m2(&m);
-            let r = catch_unwind(AssertUnwindSafe(|| m.set_nodes_vars(u(t[3]), u(t[4]), vecn(u(t[5]))))); if r.is_err() { if bits_m2(&m) == s { 1 } else { 2 } } else { 0 } }
+            let r = catch_unwind(AssertUnwindSafe(|| m.set_nodes_vars(u(t[3]), u(t[4]), pv(u(t[5]))))); if r.is_err() { if bits_m2(&m) == s { 1 } else { 2 } } else { 0 } }
         "mesh2_get_nodes_vars" => { let m = mesh2(u(t[0]), u(t[1]), 2); let s = bits_m2(&m); run(|| m.get_nodes_vars(u(t[2]), u(t[3])), || bits_m2(&m) == s, yes, false) }
         "mesh2_var_as_matrix" => { let m = mesh2(u(t[0]), u(t[1]), u(t[2])); let s = bits_m2(&m); run(|| m.var_as_matrix(u(t[3])), || bits_m2(&m) == s, yes, false) }
         // ---------------------------------------------------------------- Polynomial
         "poly_index" => { let p = polyn(u(t[0])); let s = bits_p(&p); run(|| p[u(t[1])], || bits_p(&p) == s, yes, false) }
         "poly_index_mut" => { let mut p = polyn(u(t[0])); let s = bits_p(&p);
-            let r = catch_unwind(AssertUnwindSafe(|| { p[u(t[1])] = 7.0; })); if r.is_err() { if bits_p(&p) == s { 1 } else { 2 } } else { 0 } }
+            let r = catch_unwind(AssertUnwindSafe(|| { p[u(t[1])] = px(7.0); })); if r.is_err() { if bits_p(&p) == s { 1 } else { 2 } } else { 0 } }
         "poly_roots_degree" => { let p = polyn(u(t[0])); let s = bits_p(&p); run(|| p.roots(false), || bits_p(&p) == s, yes, false) }
         // ---------------------------------------------------------------- std-checked accessors (no explicit guard)
         "vec_index_mut" => { let mut a = vecn(u(t[0])); let sa = bits_v(&a);
-            let r = catch_unwind(AssertUnwindSafe(|| { a[u(t[1])] = 7.0; })); if r.is_err() { if bits_v(&a) == sa { 1 } else { 2 } } else { 0 } }
+            let r = catch_unwind(AssertUnwindSafe(|| { a[u(t[1])] = px(7.0); })); if r.is_err() { if bits_v(&a) == sa { 1 } else { 2 } } else { 0 } }
         "vec_swap" => { let mut a = vecn(u(t[0])); let sa = bits_v(&a);
             let r = catch_unwind(AssertUnwindSafe(|| a.swap(u(t[1]), u(t[2])))); if r.is_err() { if bits_v(&a) == sa { 1 } else { 2 } } else { 0 } }
         "vec_insert" => { let mut a = vecn(u(t[0])); let sa = bits_v(&a);
-            let r = catch_unwind(AssertUnwindSafe(|| a.insert(u(t[1]), 7.0))); if r.is_err() { if bits_v(&a) == sa { 1 } else { 2 } } else { 0 } }
+            let r = catch_unwind(AssertUnwindSafe(|| a.insert(u(t[1]), px(7.0)))); if r.is_err() { if bits_v(&a) == sa { 1 } else { 2 } } else { 0 } }
         "vec_pop" => { let mut a = vecn(u(t[0])); let sa = bits_v(&a);
             let r = catch_unwind(AssertUnwindSafe(|| a.pop())); if r.is_err() { if bits_v(&a) == sa { 1 } else { 2 } } else { 0 } }
         "mesh1_index" => { let m = mesh1(u(t[0]), 2); let s = bits_m1(&m); run(|| m[u(t[1])].clone(), || bits_m1(&m) == s, yes, false) }
         "mesh1_index_mut" => { let mut m = mesh1(u(t[0]), 2); let s = bits_m1(&m);
-            let r = catch_unwind(AssertUnwindSafe(|| { m[u(t[1])] = vecn(2); })); if r.is_err() { if bits_m1(&m) == s { 1 } else { 2 } } else { 0 } }
+            let r = catch_unwind(AssertUnwindSafe(|| { m[u(t[1])] = pv(2); })); if r.is_err() { if bits_m1(&m) == s { 1 } else { 2 } } else { 0 } }
         "mesh1_coord" => { let m = mesh1(u(t[0]), 2); let s = bits_m1(&m); run(|| m.coord(u(t[1])), || bits_m1(&m) == s, yes, false) }
         "mesh2_coord" => { let m = mesh2(u(t[0]), u(t[1]), 1); let s = bits_m2(&m); run(|| m.coord(u(t[2]), u(t[3])), || bits_m2(&m) == s, yes, false) }
         "mesh2_cross_section_xnode" => { let m = mesh2(u(t[0]), u(t[1]), 2); let s = bits_m2(&m); run(|| bits_m1(&m.cross_section_xnode(u(t[2]))), || bits_m2(&m) == s, yes, false) }
         "mesh2_cross_section_ynode" => { let m = mesh2(u(t[0]), u(t[1]), 2); let s = bits_m2(&m); run(|| bits_m1(&m.cross_section_ynode(u(t[2]))), || bits_m2(&m) == s, yes, false) }
         "mesh2_apply" => { let mut m = mesh2(u(t[0]), u(t[1]), u(t[2])); let s = bits_m2(&m);
-            let r = catch_unwind(AssertUnwindSafe(|| m.apply(&|x, y| x + 2.0 * y, u(t[3])))); if r.is_err() { if bits_m2(&m) == s { 1 } else { 2 } } else { 0 } }
+            let r = catch_unwind(AssertUnwindSafe(|| { let z = zero_mode(); m.apply(&move |x, y| if z { 0.0 } else { x + 2.0 * y }, u(t[3])) })); if r.is_err() { if bits_m2(&m) == s { 1 } else { 2 } } else { 0 } }
         "band_index_rows" => { let b = bandn(u(t[0]), u(t[1]), u(t[2])); let s = bits_b(&b); run(|| b[(u(t[3]), u(t[3]))], || bits_b(&b) == s, yes, false) }
+        // ---------------------------------------------------------------- quadrature: the variable index (std-checked)
+        "mesh1_trapezium" => { let m = mesh1(u(t[0]), u(t[1])); let s = bits_m1(&m); run(|| m.trapezium(u(t[2])), || bits_m1(&m) == s, yes, false) }
+        "mesh2_trapezium" => { let m = mesh2(u(t[0]), u(t[1]), u(t[2])); let s = bits_m2(&m); run(|| m.trapezium(u(t[3])), || bits_m2(&m) == s, yes, false) }
+        "mesh2_square_trapezium" => { let m = mesh2(u(t[0]), u(t[1]), u(t[2])); let s = bits_m2(&m); run(|| m.square_trapezium(u(t[3])), || bits_m2(&m) == s, yes, false) }
+        // ---------------------------------------------------------------- receivers produced by a history
+        // Banded built as (n, a1, a2), then resize(n, m1, m2): the band test and the storage must both follow the NEW bandwidths
+        "h_band_index" => { let mut b = bandn(u(t[0]), u(t[1]), u(t[2])); b.resize(u(t[0]), u(t[3]), u(t[4])); let s = bits_b(&b);
+            run(|| b[(u(t[5]), u(t[6]))], || bits_b(&b) == s, yes, false) }
+        "h_band_index_mut" => { let n = u(t[0]); let (m1, m2) = (u(t[3]), u(t[4])); let (i, j) = (u(t[5]), u(t[6]));
+            let mut b = bandn(n, u(t[1]), u(t[2])); b.resize(n, m1, m2);
+            // give every in-band entry its own value through the write accessor (an entry that shares storage with another shows below)
+            let inband = |p: usize, q: usize| q <= p + m2 && p <= q + m1;
+            let fill = catch_unwind(AssertUnwindSafe(|| { for p in 0..n { for q in 0..n { if inband(p, q) { b[(p, q)] = 100.0 + (p * 10 + q) as f64; } } } }));
+            if fill.is_err() { return 1; }      // an in-band write was refused: reported for the in-band tuples as `in-range call panicked`
+            let s = bits_b(&b);
+            let r = catch_unwind(AssertUnwindSafe(|| { b[(i, j)] = 7.0; }));
+            if r.is_err() { return if bits_b(&b) == s { 1 } else { 2 }; }
+            let frame = catch_unwind(AssertUnwindSafe(|| { let mut ok = true;
+                for p in 0..n { for q in 0..n { if inband(p, q) {
+                    let want = if (p, q) == (i, j) { 7.0 } else { 100.0 + (p * 10 + q) as f64 };
+                    if b[(p, q)].to_bits() != want.to_bits() { ok = false; } } } }
+                ok }));
+            match frame { Ok(true) => 0, _ => 6 } }
+        // Tridiagonal built with n0 rows, then resize(n)
+        "h_tri_index" => { let mut a = trin(u(t[0])); a.resize(u(t[1])); let s = bits_t(&a); run(|| a[(u(t[2]), u(t[3]))], || bits_t(&a) == s, yes, false) }
+        "h_tri_index_mut" => { let mut a = trin(u(t[0])); a.resize(u(t[1])); let s = bits_t(&a);
+            let r = catch_unwind(AssertUnwindSafe(|| { a[(u(t[2]), u(t[3]))] = 7.0; })); if r.is_err() { if bits_t(&a) == s { 1 } else { 2 } } else { 0 } }
+        // Matrix r x c, then h = 0 transpose_in_place | 1 delete_row(0) | 2 resize(c + 1, r)
+        "h_mat_get_row" | "h_mat_get_col" | "h_mat_set_row" | "h_mat_set_col" => {
+            let (r, c) = (u(t[0]), u(t[1])); let mut m = matn(r, c);
+            match t[2] { 0 => m.transpose_in_place(), 1 => m.delete_row(0), _ => m.resize(c + 1, r) }
+            let s = bits_m(&m);
+            match key {
+                "h_mat_get_row" => run(|| m.get_row(u(t[3])), || bits_m(&m) == s, yes, false),
+                "h_mat_get_col" => run(|| m.get_col(u(t[3])), || bits_m(&m) == s, yes, false),
+                _ => { let row = key == "h_mat_set_row";
+                    let res = catch_unwind(AssertUnwindSafe(|| if row { m.set_row(u(t[3]), pv(u(t[4]))) } else { m.set_col(u(t[3]), pv(u(t[4]))) }));
+                    if res.is_err() { if bits_m(&m) == s { 1 } else { 2 } } else { 0 } } } }
         _ => panic!("harness: unknown guard entry {}", key),
     }
 }
@@ -327,8 +377,187 @@ fn own_check(ty: &str, n: usize) -> i128 {
     }
 }
 
+// operands whose sums and products are INEXACT in f64 (the builders above are small dyadic numbers: every operation on them is exact, so
+// a consuming form that reassociates, commutes the accumulation or multiplies by a reciprocal agrees with the borrowed form on them)
+fn xval(k: usize) -> f64 { let x = 0.1 * (k as f64 + 1.0) + 1.0 / (k as f64 + 3.0); if k % 3 == 1 { -x } else { x } }
+fn vecx(n: usize, o: usize) -> Vector<f64> { Vector::create((0..n).map(|i| xval(i + o)).collect()) }
+fn matx(r: usize, c: usize, o: usize) -> Matrix<f64> {
+    let mut m = Matrix::<f64>::new(r, c, 0.0);
+    for i in 0..r { for j in 0..c { m[(i, j)] = xval(i * c + j + o) * (1.0 + 0.01 * j as f64); } }
+    m
+}
+fn bandx(n: usize, m1: usize, m2: usize, o: usize) -> Banded<f64> {
+    let mut b = Banded::<f64>::new(n, m1, m2, 0.0);
+    for i in 0..n { for j in 0..n { if j <= i + m2 && i <= j + m1 { b[(i, j)] = xval(i * n + j + o); } } }
+    b
+}
+fn trix(n: usize, o: usize) -> Tridiagonal<f64> { Tridiagonal::with_vectors(vecx(n - 1, o), vecx(n, o + 7), vecx(n - 1, o + 13)) }
+fn polyx(len: usize, o: usize) -> Polynomial<f64> { Polynomial::new((0..len).map(|i| xval(i + o)).collect()) }
+
+fn own2_check(ty: &str, n: usize) -> i128 {
+    let scalars = [3.0f64, 0.1, -7.0, 1.0 / 3.0];
+    match ty {
+        "matrix" => { let a = matx(n, n + 1, 0); let c = matx(n, n + 1, 5); let b = matx(n + 1, n + 2, 2); let v = vecx(n + 1, 1);
+            let (sa, sc, sb, sv) = (bits_m(&a), bits_m(&c), bits_m(&b), bits_v(&v));
+            if bits_m(&(&a + &c)) != bits_m(&(a.clone() + c.clone())) { return 4; }
+            if bits_m(&(&a - &c)) != bits_m(&(a.clone() - c.clone())) { return 4; }
+            if bits_m(&(&a * &b)) != bits_m(&(a.clone() * b.clone())) { return 4; }
+            if bits_v(&a.multiply(&v)) != bits_v(&(&a * &v)) { return 4; }
+            if bits_v(&a.multiply(&v)) != bits_v(&(a.clone() * v.clone())) { return 4; }
+            let mut x = a.clone(); x += &c; let mut y = a.clone(); y += c.clone();
+            if bits_m(&x) != bits_m(&y) || bits_m(&x) != bits_m(&(&a + &c)) { return 4; }
+            let mut x = a.clone(); x -= &c; let mut y = a.clone(); y -= c.clone();
+            if bits_m(&x) != bits_m(&y) || bits_m(&x) != bits_m(&(&a - &c)) { return 4; }
+            for s in scalars {
+                if bits_m(&(&a * s)) != bits_m(&(a.clone() * s)) { return 4; }
+                if bits_m(&(&a / s)) != bits_m(&(a.clone() / s)) { return 4; }
+                if bits_m(&(s * a.clone())) != bits_m(&(&a * s)) { return 4; }
+                let mut x = a.clone(); x *= s; if bits_m(&x) != bits_m(&(&a * s)) { return 4; }
+                let mut x = a.clone(); x /= s; if bits_m(&x) != bits_m(&(&a / s)) { return 4; }
+            }
+            if bits_m(&a) != sa || bits_m(&c) != sc || bits_m(&b) != sb || bits_v(&v) != sv { return 3; } 0 }
+        "banded" => { let (m1, m2) = (1.min(n), 2.min(n)); let a = bandx(n + 1, m1, m2, 0); let c = bandx(n + 1, m1, m2, 4); let v = vecx(n + 1, 2);
+            let (sa, sc, sv) = (bits_b(&a), bits_b(&c), bits_v(&v));
+            if bits_b(&(&a + &c)) != bits_b(&(a.clone() + c.clone())) { return 4; }
+            if bits_b(&(&a - &c)) != bits_b(&(a.clone() - c.clone())) { return 4; }
+            if bits_v(&(&a * &v)) != bits_v(&(a.clone() * v.clone())) { return 4; }
+            let mut x = a.clone(); x += &c; let mut y = a.clone(); y += c.clone();
+            if bits_b(&x) != bits_b(&y) || bits_b(&x) != bits_b(&(&a + &c)) { return 4; }
+            let mut x = a.clone(); x -= &c; let mut y = a.clone(); y -= c.clone();
+            if bits_b(&x) != bits_b(&y) || bits_b(&x) != bits_b(&(&a - &c)) { return 4; }
+            for s in scalars {
+                if bits_b(&(&a * s)) != bits_b(&(a.clone() * s)) { return 4; }
+                if bits_b(&(&a / s)) != bits_b(&(a.clone() / s)) { return 4; }
+                let mut x = a.clone(); x *= s; if bits_b(&x) != bits_b(&(&a * s)) { return 4; }
+                let mut x = a.clone(); x /= s; if bits_b(&x) != bits_b(&(&a / s)) { return 4; }
+            }
+            if bits_b(&a) != sa || bits_b(&c) != sc || bits_v(&v) != sv { return 3; } 0 }
+        "tridiagonal" => { let a = trix(n + 1, 0); let v = vecx(n + 1, 3); let (sa, sv) = (bits_t(&a), bits_v(&v));
+            if bits_v(&(&a * &v)) != bits_v(&(a.clone() * v.clone())) { return 4; }
+            for s in scalars {
+                if bits_t(&(s * a.clone())) != bits_t(&(a.clone() * s)) { return 4; }
+                let mut x = a.clone(); x *= s; if bits_t(&x) != bits_t(&(a.clone() * s)) { return 4; }
+                let mut x = a.clone(); x /= s; if bits_t(&x) != bits_t(&(a.clone() / s)) { return 4; }
+            }
+            if bits_t(&a) != sa || bits_v(&v) != sv { return 3; } 0 }
+        "polynomial" => { let p = polyx(n + 1, 0); let q = polyx(n / 2 + 2, 5); let (sp, sq) = (bits_p(&p), bits_p(&q));
+            if bits_p(&(&p + &q)) != bits_p(&(p.clone() + q.clone())) { return 4; }
+            if bits_p(&(&q + &p)) != bits_p(&(q.clone() + p.clone())) { return 4; }
+            if bits_p(&(&p - &q)) != bits_p(&(p.clone() - q.clone())) { return 4; }
+            if bits_p(&(&q - &p)) != bits_p(&(q.clone() - p.clone())) { return 4; }
+            if bits_p(&(&p * &q)) != bits_p(&(p.clone() * q.clone())) { return 4; }
+            if bits_p(&(&q * &p)) != bits_p(&(q.clone() * p.clone())) { return 4; }
+            if bits_p(&(&p * &p)) != bits_p(&(p.clone() * p.clone())) { return 4; }
+            for s in scalars { if bits_p(&(&p * s)) != bits_p(&(p.clone() * s)) { return 4; } }
+            if bits_p(&p) != sp || bits_p(&q) != sq { return 3; } 0 }
+        "vector" => { let a = vecx(n, 0); let b = vecx(n, 4); let (sa, sb) = (bits_v(&a), bits_v(&b));
+            if bits_v(&(&a + &b)) != bits_v(&(a.clone() + b.clone())) { return 4; }
+            if bits_v(&(&a - &b)) != bits_v(&(a.clone() - b.clone())) { return 4; }
+            if bits_v(&(&a + &b)) != bits_v(&(a.clone() + &b)) { return 4; }
+            if bits_v(&(&a - &b)) != bits_v(&(a.clone() - &b)) { return 4; }
+            let mut x = a.clone(); x += b.clone(); if bits_v(&x) != bits_v(&(&a + &b)) { return 4; }
+            let mut x = a.clone(); x -= b.clone(); if bits_v(&x) != bits_v(&(&a - &b)) { return 4; }
+            for s in scalars {
+                if bits_v(&(s * a.clone())) != bits_v(&(a.clone() * s)) { return 4; }
+                let mut x = a.clone(); x *= s; if bits_v(&x) != bits_v(&(a.clone() * s)) { return 4; }
+                let mut x = a.clone(); x /= s; if bits_v(&x) != bits_v(&(a.clone() / s)) { return 4; }
+            }
+            if bits_v(&a) != sa || bits_v(&b) != sb { return 3; } 0 }
+        _ => panic!("harness: unknown own2 type {}", ty),
+    }
+}
+
+// clone: a faithful copy at the moment it is taken (code 7 otherwise), and independent afterwards under EVERY public mutator of the type,
+// applied to the clone first and to the original first (code 1 otherwise)
+fn indep<X: Clone>(make: &dyn Fn() -> X, bits: &dyn Fn(&X) -> Vec<u64>, muts: &[&dyn Fn(&mut X)]) -> i128 {
+    for m in muts {
+        let mut a = make(); let mut c = a.clone();
+        if bits(&c) != bits(&a) { return 7; }
+        let sa = bits(&a); m(&mut c); if bits(&a) != sa { return 1; }
+        let sc = bits(&c); m(&mut a); if bits(&c) != sc { return 1; }
+        let mut a = make(); let mut c = a.clone();
+        let sc = bits(&c); m(&mut a); if bits(&c) != sc { return 1; }
+        let sa = bits(&a); m(&mut c); if bits(&a) != sa { return 1; }
+    }
+    0
+}
+fn clone2_check(ty: &str, n: usize) -> i128 {
+    match ty {
+        "vector" => indep(&|| vecx(n, 0), &|v| bits_v(v), &[
+            &|v| v.push(9.0), &|v| v.push_front(9.0), &|v| v.insert(v.size() / 2, 9.0), &|v| if v.size() > 0 { v.pop(); },
+            &|v| if v.size() > 1 { let l = v.size() - 1; v.swap(0, l); }, &|v| v.clear(), &|v| v.resize(v.size() + 2), &|v| v.resize(v.size() / 2),
+            &|v| v.assign(3.5), &|v| if v.size() > 0 { let l = v.size() - 1; v[l] = -1.0; }, &|v| *v += 1.5, &|v| *v -= 1.5, &|v| *v *= 3.0, &|v| *v /= 3.0,
+            &|v| { let w = vecn(v.size()); *v += w; }, &|v| { let w = vecn(v.size()); *v -= w; }, &|v| v.sort_by(|x, y| y.partial_cmp(x).unwrap()) ]),
+        "matrix" => indep(&|| matx(n, n + 1, 0), &|m| bits_m(m), &[
+            &|m| m.fill(9.0), &|m| m.fill_diag(9.0), &|m| m.fill_band(1, 9.0), &|m| m.fill_tridiag(1.0, 2.0, 3.0),
+            &|m| if m.rows() > 0 { m.fill_row(m.rows() - 1, 9.0); }, &|m| m.fill_col(m.cols() - 1, 9.0),
+            &|m| if m.rows() > 0 { let c = m.cols(); m.set_row(0, vecn(c)); }, &|m| { let r = m.rows(); m.set_col(0, vecn(r)); },
+            &|m| if m.rows() > 0 { m.delete_row(0); }, &|m| if m.rows() > 1 { let l = m.rows() - 1; m.swap_rows(0, l); },
+            &|m| if m.rows() > 1 { let (r, c) = (m.rows() - 1, m.cols() - 1); m.swap_elem(0, 0, r, c); },
+            &|m| { let (r, c) = (m.rows(), m.cols()); m.resize(r + 1, c); }, &|m| { let (r, c) = (m.rows(), m.cols()); m.resize(r, c - 1); },
+            &|m| m.transpose_in_place(), &|m| if m.rows() > 0 { m[(0, 0)] = -1.0; }, &|m| m.clear(),
+            &|m| *m += 1.5, &|m| *m -= 1.5, &|m| *m *= 3.0, &|m| *m /= 3.0,
+            &|m| { let o = matn(m.rows(), m.cols()); *m += &o; }, &|m| { let o = matn(m.rows(), m.cols()); *m -= o; } ]),
+        "banded" => indep(&|| bandx(n + 1, 1.min(n), 2.min(n), 0), &|b| bits_b(b), &[
+            &|b| b.fill(9.0), &|b| b.fill_band(0, 9.0), &|b| { let (k, p, q) = (b.size(), b.size_below(), b.size_above()); b.resize(k + 1, p, q); },
+            &|b| { let (k, p) = (b.size(), b.size_below()); b.resize(k, p, 0); }, &|b| b[(0, 0)] = -1.0,
+            &|b| *b += 1.5, &|b| *b -= 1.5, &|b| *b *= 3.0, &|b| *b /= 3.0,
+            &|b| { let o = bandn(b.size(), b.size_below(), b.size_above()); *b += &o; }, &|b| { let o = bandn(b.size(), b.size_below(), b.size_above()); *b -= o; } ]),
+        "tridiagonal" => indep(&|| trix(n + 1, 0), &|t| bits_t(t), &[
+            &|t| t[(0, 0)] = -1.0, &|t| if t.size() > 1 { t[(1, 0)] = -1.0; t[(0, 1)] = -2.0; }, &|t| { let k = t.size(); t.resize(k + 1); },
+            &|t| if t.size() > 1 { let k = t.size(); t.resize(k - 1); }, &|t| t.transpose_in_place(),
+            &|t| *t += 1.5, &|t| *t -= 1.5, &|t| *t *= 3.0, &|t| *t /= 3.0 ]),
+        "polynomial" => indep(&|| polyx(n + 1, 0), &|p| bits_p(p), &[
+            &|p| p[0] = -1.0, &|p| { let l = p.size() - 1; p[l] = 0.0; p.trim(); }, &|p| p.coeffs().push(1.0), &|p| { p.coeffs().pop(); },
+            &|p| p.coeffs().clear(), &|p| p.coeffs().reverse() ]),
+        _ => panic!("harness: unknown clone2 type {}", ty),
+    }
+}
+
+// the SAME object on both sides of a by-reference operator: the outcome (bits of the result, or a panic) must be that of the same call
+// with an equal but distinct second operand
+fn same<R>(f1: impl FnOnce() -> R, f2: impl FnOnce() -> R, bits: impl Fn(&R) -> Vec<u64>) -> bool {
+    let r1 = catch_unwind(AssertUnwindSafe(f1)); let r2 = catch_unwind(AssertUnwindSafe(f2));
+    match (r1, r2) { (Ok(x), Ok(y)) => bits(&x) == bits(&y), (Err(_), Err(_)) => true, _ => false }
+}
+fn self_check(ty: &str, n: usize) -> i128 {
+    match ty {
+        "vector" => { let a = vecx(n, 0); let b = a.clone(); let sa = bits_v(&a);
+            if !same(|| &a + &a, || &a + &b, bits_v) || !same(|| &a - &a, || &a - &b, bits_v) { return 4; }
+            if !same(|| a.dot(&a), || a.dot(&b), |x| vec![x.to_bits()]) || !same(|| a.dot_f64(&a), || a.dot_f64(&b), |x| vec![x.to_bits()]) { return 4; }
+            if bits_v(&a) != sa { return 3; } 0 }
+        "matrix" => { for (r, c) in [(n, n), (n, n + 1), (n + 1, n)] { let a = matx(r, c, 0); let b = a.clone(); let sa = bits_m(&a);
+                if !same(|| &a + &a, || &a + &b, bits_m) || !same(|| &a - &a, || &a - &b, bits_m) || !same(|| &a * &a, || &a * &b, bits_m) { return 4; }
+                let mut x = a.clone(); let mut y = a.clone();
+                if !same(|| { x += &a; bits_m(&x) }, || { y += &b; bits_m(&y) }, |v| v.clone()) { return 4; }
+                if bits_m(&a) != sa { return 3; } }
+            0 }
+        "banded" => { let a = bandx(n + 1, 1.min(n), 2.min(n), 0); let b = a.clone(); let sa = bits_b(&a);
+            if !same(|| &a + &a, || &a + &b, bits_b) || !same(|| &a - &a, || &a - &b, bits_b) { return 4; }
+            if bits_b(&a) != sa { return 3; } 0 }
+        "polynomial" => { let p = polyx(n + 1, 0); let q = p.clone(); let sp = bits_p(&p);
+            if !same(|| &p + &p, || &p + &q, bits_p) || !same(|| &p - &p, || &p - &q, bits_p) || !same(|| &p * &p, || &p * &q, bits_p) { return 4; }
+            if bits_p(&p) != sp { return 3; } 0 }
+        _ => panic!("harness: unknown self type {}", ty),
+    }
+}
+
 pub fn run_kind(kind: &str, a: &mut Args, out: &mut Out) {
     let key = kind.strip_prefix("guard.").unwrap_or_else(|| panic!("harness: bad guard kind {}", kind));
+    if let Some(ty) = key.strip_prefix("clone2_") {
+        while a.more() { let n = a.usize(); out.int(clone2_check(ty, n)); }
+        return;
+    }
+    if let Some(ty) = key.strip_prefix("self_") {
+        while a.more() { let n = a.usize(); out.int(self_check(ty, n)); }
+        return;
+    }
+    if let Some(ty) = key.strip_prefix("own2_") {
+        while a.more() { let n = a.usize(); out.int(own2_check(ty, n)); }
+        return;
+    }
+    let (key, zero) = match key.strip_suffix("@zero") { Some(k) => (k, true), None => (key, false) };
+    ZERO.with(|z| z.set(zero));
     if let Some(ty) = key.strip_prefix("clone_") {
         while a.more() { let n = a.usize(); out.int(clone_check(ty, n)); }
         return;
